@@ -110,8 +110,11 @@ static void roundtrip(const config *c) {
 	default: { ref_xz_info info; rr = ref_xz_decode(comp, clen, refo, MAXIN, &rl, &info);
 		if (rr != REF_OK || rl != inlen || memcmp(refo, inb, inlen) || info.consumed != clen) FAILR("c02:reference-rejects", "reference .xz parser: %d, %zu of %zu bytes, consumed %zu of %zu", rr, rl, inlen, info.consumed, clen);
 		if (info.streams != 1) FAILR("c02:structure", "%u Streams", info.streams); if (info.check != (unsigned)c->check) FAILR("c02:structure", "Check ID %u, requested %d", info.check, c->check);
-		if (lo && info.dict_size_declared < lo->dict_size && info.blocks) FAILR("c02:declared-dictionary", "declared LZMA2 dictionary %u smaller than requested %u", info.dict_size_declared, lo->dict_size);
-		if (lo && info.blocks) { unsigned b = 0; while (b < 40 && ref_lzma2_dict_size(b) < (lo->dict_size < 4096 ? 4096 : lo->dict_size)) b++; if (info.dict_size_declared != ref_lzma2_dict_size(b)) FAILR("c02:declared-dictionary", "declared dictionary %u is not the smallest encodable size >= %u", info.dict_size_declared, lo->dict_size); }
+		// The declared dictionary must cover every match (the reference parser rejects a distance beyond it). A Block stored as uncompressed
+		// LZMA2 chunks (incompressible data in the buffer encoders) needs no dictionary and legitimately declares the 4 KiB minimum.
+		int stored_only = info.max_dist_used == 0 && info.uncompressed_chunks > 0;
+		if (lo && info.dict_size_declared < lo->dict_size && info.blocks && !stored_only) FAILR("c02:declared-dictionary", "declared LZMA2 dictionary %u smaller than requested %u although matches are used (largest distance %u)", info.dict_size_declared, lo->dict_size, info.max_dist_used);
+		if (lo && info.blocks && !stored_only) { unsigned b = 0; while (b < 40 && ref_lzma2_dict_size(b) < (lo->dict_size < 4096 ? 4096 : lo->dict_size)) b++; if (info.dict_size_declared != ref_lzma2_dict_size(b)) FAILR("c02:declared-dictionary", "declared dictionary %u is not the smallest encodable size >= %u", info.dict_size_declared, lo->dict_size); }
 		if (c->entry == EN_MT && c->block_size) { size_t exp = (inlen + c->block_size - 1) / c->block_size; if (info.nblk != exp) FAILR("c02:structure", "%u Blocks, expected %zu", info.nblk, exp); for (unsigned b = 0; b < info.nblk; b++) if (info.blk_has_sizes[b] != 3) FAILR("c02:structure", "threaded encoder Block %u lacks size fields", b); }
 		if (inlen == 0 && info.nblk != 0 && c->entry != EN_BLOCK_BUF) FAILR("c02:structure", "empty input produced %u Blocks", info.nblk); }
 	}
